@@ -720,3 +720,172 @@ def check_c06(world):
                              f'{(t_r - EPOCH_NS) / 1e9:.3f}s although its required output {victim} was dead '
                              f'(killed at {(t_k - EPOCH_NS) / 1e9:.3f}s)', None, t_k, shape=sc['shape']))
     return out
+
+
+C08_KIND = {'exit_process': 'clean', 'exit_setup': 'clean', 'exit_shutdown': 'clean', 'stop': 'clean',
+            'exit_after_secs': 'clean', 'exit_after_str': 'clean', 'exit_after_at': 'clean',
+            'raise_process': 'error', 'raise_setup': 'error', 'raise_init': 'error', 'raise_shutdown': 'error',
+            'raise_send': 'error', 'raise_recv': 'error'}
+_FLAGS = {'all': 3, 'clean': 1, 'error': 2, 'none': 0}
+_BIT = {'clean': 1, 'error': 2}
+
+
+def c08_expected(sc):
+    """Which filters must end, and why: {nid: (kind, 'self' | 'propagated', depth)}."""
+    nodes = sc['nodes']
+    adj = {n: set() for n in sc['order']}
+    for n in sc['order']:
+        for s in nodes[n].get('sources') or []:
+            adj[n].add(s['from'])
+            adj[s['from']].add(n)
+    x = sc['x']
+    kind = C08_KIND[sc['cause']]
+    ends = {x: (kind, 'self', 0)}
+    frontier = [x]
+    # raise_init fails before inter-filter communication exists: nothing can be announced
+    can_announce = sc['cause'] != 'raise_init'
+    while frontier:
+        nxt = []
+        for m in frontier:
+            mk, _, d = ends[m]
+            if m == x and not can_announce:
+                continue
+            if not (_FLAGS[nodes[m].get('prop_exit') or 'clean'] & _BIT[mk]):
+                continue
+            for n in sorted(adj[m]):
+                if n in ends:
+                    continue
+                if _FLAGS[nodes[n].get('obey_exit') or 'all'] & _BIT[mk]:
+                    ends[n] = (mk, m, d + 1)
+                    nxt.append(n)
+        frontier = nxt
+    return ends
+
+
+def check_c08(world):
+    """Lifecycle automaton per filter incarnation, socket census, outcome, exit propagation, exit_after."""
+    sc = world.sc
+    out = []
+    stats = world.ostats
+    nodes = sc['nodes']
+    x = sc['x']
+    cause = sc['cause']
+    kind = C08_KIND[cause]
+    sig = dict(cause=cause)
+    life = {}
+    for e in world.events:
+        if e[0] == 'life':
+            life.setdefault((e[3], e[4]), []).append((e[5], e[2], e[1]))
+    reasons = {}
+    for e in world.events:
+        if e[0] == 'log' and e[3] is not None:
+            if 'another filter exited' in e[7]:
+                reasons[(e[3], e[4])] = 'clean'
+            elif 'another filter errored' in e[7]:
+                reasons[(e[3], e[4])] = 'error'
+    ended = {}
+    for (nid, inc), evs in life.items():
+        names = [n for n, _, _ in evs]
+        fin = next(((n, t) for n, t, _ in evs if n in ('run_return', 'run_raise')), None)
+        if fin is None:
+            continue
+        ended[nid] = fin
+        stats['c08_incarnations_ended'] += 1
+        n_sd = names.count('shutdown')
+        setup_ok = 'setup_exit' in names
+        if setup_ok and n_sd != 1:
+            out.append(V('C08', 'shutdown_count', f'{nid}: setup() completed but shutdown() ran {n_sd} times '
+                         f'(cause {cause} at {x})', None, fin[1], **sig))
+        if not setup_ok and n_sd:
+            out.append(V('C08', 'shutdown_without_setup', f'{nid}: shutdown() ran although setup() did not complete '
+                         f'(cause {cause} at {x})', None, fin[1], **sig))
+        if setup_ok and n_sd and names.index('shutdown') < names.index('setup_exit'):
+            out.append(V('C08', 'shutdown_before_setup', f'{nid}: shutdown() before setup() returned', None, fin[1], **sig))
+        key = f'{nid}#{inc}'
+        if world.census.get(key):
+            out.append(V('C08', 'sockets_left_open', f'{nid}: run() left with open sockets {world.census[key]} '
+                         f'(cause {cause} at {x})', None, fin[1], **sig))
+        if not world.stop_flags.get(key):
+            out.append(V('C08', 'stop_event_not_set', f'{nid}: stop event not set after run() (cause {cause} at {x})',
+                         None, fin[1], **sig))
+    exp = c08_expected(sc)
+    # X itself: returns for clean, raises for error
+    if x in ended:
+        want = 'run_return' if kind == 'clean' else 'run_raise'
+        if ended[x][0] != want:
+            detail = next((str(e[6:8]) for e in world.events if e[0] == 'life' and e[3] == x and e[5] == 'run_raise'), '')
+            out.append(V('C08', 'outcome', f'{x}: cause {cause} is a {kind} ending but run() '
+                         f'{"raised " + detail if ended[x][0] == "run_raise" else "returned normally"}', None,
+                         ended[x][1], **sig))
+    elif world.stop_reason != 'max_steps':
+        out.append(V('C08', 'did_not_end', f'{x}: cause {cause} did not end the filter (stop {world.stop_reason})', None,
+                     None, **sig))
+    # soundness: nobody ends who must not
+    for nid, fin in ended.items():
+        if nid not in exp:
+            out.append(V('C08', 'ended_unexpectedly',
+                         f'{nid} left run() ({fin[0]}, reason {reasons.get((nid, 0))}) although with cause {cause} at {x} '
+                         f'(kind {kind}) and the policies {_pol(sc)} it must keep running', None, fin[1], **sig))
+        elif nid != x:
+            k2 = exp[nid][0]
+            if reasons.get((nid, 0)) != k2:
+                out.append(V('C08', 'wrong_reason', f'{nid}: ended with reason {reasons.get((nid, 0))}, expected obeyed '
+                             f'{k2} exit', None, fin[1], **sig))
+            if k2 == 'clean' and fin[0] != 'run_return':
+                out.append(V('C08', 'outcome_propagated', f'{nid}: obeyed clean exit but run() raised', None, fin[1], **sig))
+    # completeness (only when X ended while the pipeline was fully connected)
+    steady = not sc.get('early') and cause not in ('raise_init', 'raise_setup', 'exit_setup')
+    if steady and x in ended:
+        t_x = ended[x][1]
+        knobs = sc.get('knobs') or {}
+        lat = (knobs.get('net') or {}).get('lat_max_ns', 2_000_000)
+        procs = max(max(s.get('proc_ns') or [0]) for s in nodes.values())
+        per_hop = 200_000_000 + 2 * lat + procs + 100_000_000
+        for nid, (k2, why, depth) in exp.items():
+            if nid == x:
+                continue
+            stats['c08_propagation_checks'] += 1
+            bound = t_x + depth * per_hop + 500_000_000
+            if nid not in ended:
+                if world.final_now >= bound:
+                    # classify: is the deaf filter upstream of the announcer and idle in recv() (all its own sources
+                    # have ended), i.e. it never polls its request sockets on which the announcement arrived?
+                    relation = 'upstream' if any(s['from'] == nid for s in nodes[why].get('sources') or []) else 'downstream'
+                    un = world.unread_oob.get(f'{nid}#0') or set()
+                    want = 'PULL' if relation == 'upstream' else 'SUB'
+                    blocked = f'announcement_unread_in_{want}_queue' if want in un else 'other'
+                    out.append(V('C08', 'did_not_obey',
+                                 f'{nid} keeps running {((world.final_now - t_x) / 1e9):.2f}s after {x} ended ({cause}, '
+                                 f'{kind}); it is {relation} of the announcing filter {why}; policies {_pol(sc)} prescribe '
+                                 f'that it ends', None, t_x, relation=relation, blocked=blocked, **sig))
+            elif ended[nid][1] > bound:
+                out.append(V('C08', 'obeyed_late', f'{nid} ended {((ended[nid][1] - t_x) / 1e9):.2f}s after {x}', None, t_x,
+                             **sig))
+    # exit_after: ends cleanly within one loop iteration after T
+    if cause.startswith('exit_after') and x in ended and ended[x][0] == 'run_return':
+        t0 = next((t for n, t, _ in life[(x, 0)] if n == 'init_enter'), None)
+        T = sc['t_cause_ms'] * 1_000_000
+        spec = nodes[x]
+        ea = spec.get('exit_after')
+        if cause == 'exit_after_secs':
+            T = int(float(ea) * 1e9)
+        elif cause == 'exit_after_str':
+            parts = [float(p) for p in str(ea).split(':')]
+            sec = 0.0
+            for p in parts:
+                sec = sec * 60 + p
+            T = int(sec * 1e9)
+        base = EPOCH_NS if cause == 'exit_after_at' else t0
+        el = ended[x][1] - base
+        period = max([s.get('period_ns', 0) for s in nodes.values() if s.get('src')] or [0])
+        procs = sum(max(s.get('proc_ns') or [0]) for s in nodes.values())
+        slack = period + procs + 3 * 100_000_000 + 200_000_000
+        stats['c08_exit_after_checks'] += 1
+        if el < T - 2_000_000 or el > T + slack:
+            out.append(V('C08', 'exit_after_time', f'{x}: exit_after {ea!r} ended the filter after {el / 1e9:.3f}s, '
+                         f'expected within [{T / 1e9:.3f}, {(T + slack) / 1e9:.3f}]s', None, ended[x][1], **sig))
+    return out
+
+
+def _pol(sc):
+    return {n: (s.get('prop_exit'), s.get('obey_exit')) for n, s in sc['nodes'].items()}
